@@ -130,6 +130,16 @@ def enum_units(tier, seed):
                    [{"k": "const", "n": "kx_r", "e": L(new_v), "eager": False}, {"k": "data", "d": "dl", "es": [["id", "kx_r"]]}]
             wrap = body if ctx == "root" else [{"k": "block", "b": body}] if ctx == "block" else [{"k": "scope", "n": "sc_r", "b": body}]
             cases.append({"rom": "low", "files": {}, "ir": [{"k": "org", "a": 0x018000}] + wrap + sp("lb_end")})
+        # ... and the second definition takes its value from a label (known only after the label pass), written with `:=` or `=`
+        for old in (0x12, 0x1234, 0x123456):
+            for eager in (True, False):
+                for ref in ("lb_mid", "lb_end"):
+                    body = [{"k": "const", "n": "kx_r", "e": L(old), "eager": True}, lda(["id", "kx_r"])] + sp("lb_mid") + \
+                           [{"k": "const", "n": "kx_r", "e": ["id", ref], "eager": eager}, {"k": "data", "d": "dl", "es": [["id", "kx_r"]]}]
+                    wrap = body if ctx == "root" else [{"k": "block", "b": body}] if ctx == "block" else [{"k": "scope", "n": "sc_r", "b": body}]
+                    if ref == "lb_end" and ctx != "root":
+                        continue
+                    cases.append({"rom": "low", "files": {}, "ir": [{"k": "org", "a": 0x018000}] + wrap + sp("lb_end")})
     # a qualified name that an outer named scope already exports when it is first evaluated (label pass) and that a nearer
     # scope of the same name (defined later, inside the enclosing block / scope / loop / macro) must win at emission
     def named(body):
